@@ -36,10 +36,20 @@ type Case struct {
 	KeyExists string `json:"key_exists"`
 	Pre       bool   `json:"preexisting_first_key"`
 	FailAt    int    `json:"fail_restore_number"` // 0: none, j: the j-th RESTORE gets an error reply
+	// Retry: after the injected failure was reported, the run is started again against an emptied
+	// target, the way DbSyncer.Sync restarts a failed full sync (`go ds.Sync()` on the same object)
+	Retry bool `json:"retry_after_failure,omitempty"`
 	Trail     []int  `json:"trail"`
 }
 
 var registry = mredis.NewRegistry()
+
+// Attempt is 1 while the first run of an execution is started and 2 for the retry; Shared lets
+// the harness keep the object under test between the two (reset for every execution).
+var (
+	Attempt int
+	Shared  interface{}
+)
 
 func value(k Key) *rdbgen.Value {
 	var v *rdbgen.Value
@@ -100,6 +110,7 @@ func (c Case) Apply() {
 // start runs the function under test on its own goroutine: it must call report(err) when the
 // function returns (err nil for functions without a result).
 func Run(t *testing.T, c Case, ch *seqx.Chooser, start func(file []byte, report func(err error))) (kind, what string, trace []string) {
+	Attempt, Shared = 1, nil
 	c.Apply()
 	file := File(c)
 	var mu sync.Mutex
@@ -189,24 +200,7 @@ func Run(t *testing.T, c Case, ch *seqx.Chooser, start func(file []byte, report 
 			mu.Lock()
 			ab, rt := aborted, returned
 			mu.Unlock()
-			// expectations
-			expectFail := c.FailAt > 0 && c.FailAt <= numRestores(c)
-			busy := c.Pre && passes(c, c.Keys[0]) && c.Keys[0].Kind != "lua"
-			if busy && c.KeyExists == "none" {
-				expectFail = true
-			}
-			switch {
-			case !rt && !ab:
-				bad("no-return", "the run neither returned nor aborted although no request is pending")
-			case expectFail:
-				if rt && ret == nil && !ab {
-					bad("failure-swallowed", "a restore failed (error reply or busy key under key_exists=none) but the run finished as a success")
-				}
-			case ab:
-				bad("abort", "the tool aborts although every restore succeeds")
-			case ret != nil:
-				bad("error", "the run reports an error although every restore succeeds: "+ret.Error())
-			default:
+			verify := func(srv *mredis.Server, busy bool) {
 				// every passing key exactly once, in its database, with its value
 				count := map[string]int{}
 				for _, r := range srv.Applied() {
@@ -260,6 +254,82 @@ func Run(t *testing.T, c Case, ch *seqx.Chooser, start func(file []byte, report 
 				}
 				if got := len(srv.Scripts()); got != wantScripts {
 					bad("scripts", fmt.Sprintf("%d Lua scripts in the RDB (filter.lua=%v), %d loaded on the target", wantScripts, c.Lua, got))
+				}
+			}
+			// expectations
+			expectFail := c.FailAt > 0 && c.FailAt <= numRestores(c)
+			busy := c.Pre && passes(c, c.Keys[0]) && c.Keys[0].Kind != "lua"
+			if busy && c.KeyExists == "none" {
+				expectFail = true
+			}
+			switch {
+			case !rt && !ab:
+				bad("no-return", "the run neither returned nor aborted although no request is pending")
+			case expectFail:
+				if rt && ret == nil && !ab {
+					bad("failure-swallowed", "a restore failed (error reply or busy key under key_exists=none) but the run finished as a success")
+				}
+			case ab:
+				bad("abort", "the tool aborts although every restore succeeds")
+			case ret != nil:
+				bad("error", "the run reports an error although every restore succeeds: "+ret.Error())
+			default:
+				verify(srv, busy)
+			}
+			if c.Retry && kind == "" && expectFail && rt && !ab && ret != nil {
+				// the failure was reported; the tool now restarts the full sync on the same object
+				Attempt = 2
+				srv2 := mredis.New(mredis.Options{Registry: registry, Hold: true})
+				hook.SetDialHook(func(network, addr string) (net.Conn, error, bool) {
+					cc, sc := memconn.Pair("target-retry")
+					go srv2.Serve(sc)
+					return cc, nil, true
+				})
+				mu.Lock()
+				ret, returned = nil, false
+				mu.Unlock()
+				go start(file, func(err error) {
+					mu.Lock()
+					ret, returned = err, true
+					mu.Unlock()
+				})
+				for step := 0; step < 400; step++ {
+					synctest.Wait()
+					if len(srv2.Pending()) == 0 {
+						mu.Lock()
+						done := returned || aborted
+						mu.Unlock()
+						if done {
+							break
+						}
+						time.Sleep(time.Second)
+						continue
+					}
+					srv2.Grant(0)
+				}
+				synctest.Wait()
+				mu.Lock()
+				ab2, rt2, ret2 := aborted, returned, ret
+				mu.Unlock()
+				switch {
+				case !rt2 && !ab2:
+					bad("retry-no-return", "the restarted full sync neither returned nor aborted")
+				case ab2:
+					bad("retry-abort", "the restarted full sync aborts although every restore succeeds")
+				case ret2 != nil:
+					bad("retry-error", "the restarted full sync reports an error although every restore succeeds: "+ret2.Error())
+				default:
+					verify(srv2, false)
+					if kind != "" {
+						kind = "retry-" + kind
+					}
+				}
+				for i := 0; i < 50; i++ {
+					synctest.Wait()
+					if len(srv2.Pending()) == 0 {
+						break
+					}
+					srv2.Grant(0)
 				}
 			}
 			// tear down: release whatever is still held, cut the connections
@@ -345,6 +415,8 @@ func Scenarios() []Case {
 			for j := 1; j <= 3; j++ {
 				out = append(out, Case{Keys: keys, Workers: w, TargetDB: -1, KeyExists: "none", FailAt: j})
 			}
+			out = append(out, Case{Keys: keys, Workers: w, TargetDB: -1, KeyExists: "none", FailAt: 1, Retry: true})
+			out = append(out, Case{Keys: keys, Workers: w, TargetDB: -1, KeyExists: "none", FailAt: 2, Retry: true})
 		}
 	}
 	return out
